@@ -63,6 +63,9 @@ func slotIndexFrom(sym ssa.Value, elemLen int64) (ssa.Value, bool) {
 	if !okc || c != elemLen || !okr || rem.Op != token.REM || !isLoadOf(rem.Y, "queue.cap") {
 		return nil, false
 	}
+	if narrows(rem.X) {
+		return nil, false // a cursor narrowed before the remainder jumps when it crosses the narrower type's range
+	}
 	return stripConv(rem.X), true
 }
 
